@@ -85,7 +85,9 @@ def from_lonlat(lon_lat: LonLat) -> Spherical:
         Tuple of (theta, phi) in radians
     """
     longitude, latitude = lon_lat
-    theta = deg_to_rad(cast(Degrees, longitude + LONGITUDE_OFFSET))
+    # Reduce the longitude to one turn first (fmod is exact), so that longitudes far outside
+    # [-180, 180] do not lose precision in the conversion to radians
+    theta = deg_to_rad(cast(Degrees, math.fmod(longitude, 360.0) + LONGITUDE_OFFSET))
     
     geodetic_lat = deg_to_rad(cast(Degrees, latitude))
     authalic_lat = authalic.forward(geodetic_lat)
